@@ -29,7 +29,7 @@ findings = [
 fixed = []
 log = subprocess.run(["git", "-C", "/repo", "log", "--format=%h %s", "--grep=^fix:"], capture_output=True, text=True).stdout.strip().split('\n')
 PROP = {"claiming with until_epoch": "C06,C07", "closing a position must not remove": "C10,C06", "zero creation fee": "C11", "stableswap slippage amount": "C13",
-        "withdrawals pay floor": "C02", "iterate the stableswap invariant": "C19,C02,C03", "constant-product spread": "C12,C13", "reverse simulation": "C12", "must not reorder": "C19,C03"}
+        "withdrawals pay floor": "C02", "iterate the stableswap invariant": "C19,C02,C03", "constant-product spread": "C12,C13", "reverse simulation": "C12", "must not reorder": "C19,C03", "pay the first epoch": "C07"}
 for l in log:
     h, msg = l.split(' ', 1)
     props = next((v for k, v in PROP.items() if k in msg), "?")
